@@ -21,7 +21,7 @@ REGISTRY = {
                      (A + "GenericsThm", "Api.Generics.old_eq_of_same_order"), (A + "GenericsCompThm", "Api.Generics.resolve_two_step"), (A + "GenericsCompThm", "Api.Generics.subst_comp"),
                      (A + "AggregateThm", "Api.Agg.patLoop_first"), (A + "AggregateThm", "Api.Agg.patLoop_cover"), (A + "AggregateThm", "Api.Agg.patLoop_disjoint"),
                      (A + "AggregateThm", "Api.Agg.flatLoop_takes"), (A + "AggregateThm", "Api.Agg.attrib_unexpected"), (A + "AggregateThm", "Api.Agg.attrib_additional"),
-                     (A + "AggregateThm", "Api.Agg.agg_steps_pinned")],
+                     (A + "AggregateThm", "Api.Agg.agg_steps_pinned"), (A + "TypedDictKeysThm", "Api.typedDict_result_keys_nodup")],
         "partial": "C01_acceptU: acceptance <=> `conforms` on Ty.accU (unions of any shape at any depth, dependent_required included; sets, uniqueItems and field-level "
                    "fall_back_on_default outside) for data with distinct keys and no crash-prone leaf; C01_accept: the same on Ty.acc (a union is only Optional) "
                    "for every datum with distinct keys; C01_image_partial: typed image on the index-keyed fragment",
